@@ -384,7 +384,10 @@ def run_fast_sir(spec, props=("C01",)):
             A.nontrivial.add(pre)
         A.states.add(hsh((sorted(delay.items()), sorted(duration.items()))))
         if "C01" in props:
-            if fastpath:
+            # which sampling scheme this execution used is read off the draws (an implementation may legitimately
+            # use the generic per-edge scheme for unweighted graphs too)
+            fp_run = any(x[0] == "binomial" for x in r.log) or any(x[0] == "draw" and x[1] == "trunc" for x in r.log)
+            if fp_run:
                 # non-recipients of an infected node have no delay: they are 'inf' by construction
                 missing_ok = lambda u, v: True
             else:
@@ -395,7 +398,7 @@ def run_fast_sir(spec, props=("C01",)):
                 inf, rec = res
                 A.trans.add(hsh((tuple(sorted(inf.items())), tuple(sorted(rec.items())))))
                 # draw protocol: exactly the susceptible neighbours get a clock (weighted path)
-                if not fastpath:
+                if not fp_run:
                     for u, tu in inf.items():
                         want = {v for v in G.neighbors(u) if v not in R0 and (v not in inf or inf[v] > tu) and tau * wE(u, v) > 0}
                         tied = {v for v in G.neighbors(u) if inf.get(v) == tu}   # infected at the same instant (only I0 at tmin): an unused extra clock is harmless
